@@ -67,7 +67,12 @@ func (u *User) GetPID() string                 { return u.PID }
 func (u *User) PutPID(p string)                { u.PID = p }
 func (u *User) GetPassword() string            { return u.Password }
 func (u *User) PutPassword(p string)           { u.Password = p }
-func (u *User) GetEmail() string               { return u.Email }
+func (u *User) GetEmail() string {
+	if u.Email == "" { // an account registered without an e-mail field is reachable at its PID
+		return u.PID
+	}
+	return u.Email
+}
 func (u *User) PutEmail(e string)              { u.Email = e }
 func (u *User) GetConfirmed() bool             { return u.Confirmed }
 func (u *User) PutConfirmed(c bool)            { u.Confirmed = c }
